@@ -709,19 +709,41 @@ impl ZiPatch {
             let base_files = crate::patch::recurse(base_directory);
             let new_files = crate::patch::recurse(new_directory);
 
-            // A set of files not present in base, but in new (aka added files)
+            // Files of the two trees are matched by their path relative to each root.
+            let find_in = |files: &'_ [PathBuf], root: &str, relative: &Path| -> Option<PathBuf> {
+                files
+                    .iter()
+                    .find(|other| other.strip_prefix(root).ok() == Some(relative))
+                    .cloned()
+            };
+
+            // A set of files not present in base or with different content, but in new (aka added and changed files)
             let added_files: Vec<&PathBuf> = new_files
                 .iter()
                 .filter(|item| {
                     let metadata = fs::metadata(item).unwrap();
-                    !base_files.contains(item) && metadata.len() > 0 // TODO: we filter out zero byte files here, but does SqEx do that?
+                    if metadata.len() == 0 {
+                        // TODO: we filter out zero byte files here, but does SqEx do that?
+                        return false;
+                    }
+                    let relative = item.strip_prefix(new_directory).unwrap();
+                    match find_in(&base_files, base_directory, relative) {
+                        Some(base_file) => read(base_file).ok() != read(item).ok(),
+                        None => true,
+                    }
                 })
                 .collect();
 
-            // A set of files not present in the new directory, that used to be in base (aka removedf iles)
+            // A set of files not present (or only present as a skipped zero byte file) in the new directory, that used to be in base (aka removed files)
             let removed_files: Vec<&PathBuf> = base_files
                 .iter()
-                .filter(|item| !new_files.contains(item))
+                .filter(|item| {
+                    let relative = item.strip_prefix(base_directory).unwrap();
+                    match find_in(&new_files, new_directory, relative) {
+                        Some(new_file) => fs::metadata(new_file).map(|m| m.len() == 0).unwrap_or(true),
+                        None => true,
+                    }
+                })
                 .collect();
 
             // Process added files
